@@ -13,7 +13,7 @@ CLAIMED = {
 }
 CLAIMED["C01"] = dict(
     text="Per-type field sequences regenerated from zmsg.go on every run and interpreted by a Coq model of the field "
-         "codecs; Coq theorems over all layouts/values (see Props/C01.v); model tied to /repo by the translator plus "
+         "codecs; Coq theorems over all layouts/values (see Props/C01.v), incl. value->wire->value for every field kind, every field sequence and every record of all 81 translated layouts (RFC 1035 record octets made explicit) and wire->value->wire for 70 types (partial); model tied to /repo by the translator plus "
          "vm_compute correspondence of pack octets, unpacked values and lengths for every registered type each run",
     technique="machine-checked proof in Coq over translator-regenerated layout tables + model/implementation correspondence by vm_compute")
 CLAIMED["C09"] = dict(
@@ -101,11 +101,15 @@ CLAIMED["C02"] = dict(
          "real allocation and time measured by the harness (partial)",
     technique="machine-checked proof in Coq (termination measures, checked slicing, induction over layouts) + model/implementation correspondence by vm_compute")
 CLAIMED["C04"] = dict(
-    text="Kernel-checked complete checks of the compress flags regenerated from zmsg.go (only RFC 1035 types compress RDATA names, "
-         "all of them do, unpack reads every name with the pointer-following decoder); executable model of packDomainName with "
-         "the compression map whose octets AND final map contents are compared with the implementation on every run; "
-         "transparency, never-longer and pointer validity by independent wire reader on the implementation (theorems pending: partial)",
-    technique="machine-checked table checks in Coq over translator-regenerated layouts + model/implementation correspondence by vm_compute + independent wire reader oracle")
+    text="Coq theorems about the packer's compression map (every entry is the text of a suffix laid, through valid pointers, at an "
+         "earlier offset below 16384 that holds a label octet), for every state and every message: packDomainName only appends, lays "
+         "exactly the labels of its argument (any laid name of at most 255 octets needs at most 127 hops and is decoded by "
+         "UnpackDomainName), emits pointers only to such suffixes, is never longer than the plain form; lifted through every field "
+         "codec, packRR with its RDLENGTH patch and Pack: compressed output never longer, all names laid, and Msg.Unpack of the "
+         "compressed and of the uncompressed packing accepts both and returns the same header, questions and records (modulo "
+         "Rdlength); compress flags of the tables regenerated from zmsg.go: only and all RFC 1035 types compress RDATA names; "
+         "model tied to /repo by the translator plus vm_compute correspondence (octets AND final map contents)",
+    technique="machine-checked proof in Coq (compression-map invariant, holes device for the RDLENGTH patch) over translator-regenerated layouts + model/implementation correspondence by vm_compute")
 CLAIMED["C20"] = dict(
     text="Coq theorems, generic in the comparison lists regenerated from zduplicate.go on every run: the lists are well formed "
          "(vm_compute over the whole table), hence IsDuplicate never panics and is symmetric and transitive on all records, reflexive "
